@@ -1,6 +1,7 @@
 """C17 -- Python bindings are a transparent view of the Rust operations."""
 from .common import *
 from .c05 import drivers_run
+from .floatlib import programs_run
 
 
 def pybind_run():
@@ -48,21 +49,29 @@ def replay_one(rep):
 def run(tier):
     chk = Check("C17", tier, "model_checking")
     build_harness("hpy")
-    pb, dr, pa, pdev = parallel([pybind_run, lambda: drivers_run("num", 3, 3, "drivers_py", caseset="py"), pyarrays_run,
-                                 pyarrays_deviation_run], 4)
+    nprog = 150 if tier == "quick" else 3000
+    pb, dr, pa, pdev, pg2, pg3 = parallel([pybind_run, lambda: drivers_run("num", 3, 3, "drivers_py", caseset="py"), pyarrays_run,
+                                           pyarrays_deviation_run, lambda: programs_run(2, 8, nprog, "prog17_2_8"),
+                                           lambda: programs_run(3, 12, nprog, "prog17_3_12")], 6)
     chk.add_tlc(pb, "forwarding table python method/operator -> program of Rust operations; reflected operators mean l-x, l/x, l+x, l*x "
                     "(checked over exact rationals on the five scalar kinds); driver dispatch on the input length")
     chk.add_tlc(dr, "driver cases for input lengths 1..12 (closures, points, expected outputs by formal differentiation)")
     chk.add_tlc(pa, "Python heap of dual scalars, float arrays and object arrays (shapes (3,), (2,2), (0,)): every behaviour of two operator "
                     "applications over every pair of heap objects; Elementwise, Kinds, Immutable (operands never change, results are new objects)")
     chk.cov["deviation_run"] = "PyArrays with the in-place action InPlaceObj added violates Immutable (expected; non-vacuity)"
-    for r, nm in ((pb, "PyBind"), (dr, "Drivers"), (pa, "PyArrays")):
+    for pg in (pg2, pg3):
+        chk.add_tlc(pg, "program skeletons (expression DAGs) sampled from Programs.tla, written against the Python classes with PyBind.ProgSyntax")
+    for r, nm in ((pb, "PyBind"), (dr, "Drivers"), (pa, "PyArrays"), (pg2, "Programs"), (pg3, "Programs")):
         if r.violated:
             chk.model_violation(r, nm)
     if chk.violations:
         return chk.finish()
     exe = os.path.join(HARNESS, "target", "debug", "hpy")
-    p = subprocess.run([exe, "--table", pb.out_path, "--drivers", dr.out_path, "--arrays", pa.out_path, "--stride",
+    progs = os.path.join(WORK, "prog17_all.txt")
+    with open(progs, "w") as f:
+        for pg in (pg2, pg3):
+            f.write(open(pg.out_path).read())
+    p = subprocess.run([exe, "--table", pb.out_path, "--drivers", dr.out_path, "--programs", progs, "--arrays", pa.out_path, "--stride",
                         "20" if tier == "quick" else "1", "--seed", str(seed()), "--samples", "3" if tier == "quick" else "150"], stdout=subprocess.PIPE, stderr=subprocess.PIPE, text=True, timeout=3000,
                        env=dict(os.environ, PYTHONIOENCODING="utf-8"))
     if p.returncode != 0:
@@ -82,12 +91,18 @@ def run(tier):
     elif narr < 256:
         raise ToolError("vacuity: %d (class, operand kinds, operator) array cases, expected 256" % narr)
     chk.cov["array_cases"] = narr
+    chk.cov["programs"] = rep.get("programs", "")
+    nprogcases = len([k for k in rep["per_case"] if "|program n" in k])
+    nprogops = len([k for k in rep["per_case"] if k.startswith("prog-op|")])
+    if nprogcases < 16 or nprogops < 30:
+        raise ToolError("vacuity: whole programs replayed on %d (class, arity) cases with %d distinct operations" % (nprogcases, nprogops))
+    chk.cov["program_cases"] = sum(v for k, v in rep["per_case"].items() if "|program n" in k)
     nvec = len([k for k in rep["per_case"] if k.startswith("vec-class|")])
     if nvec < 24:
         raise ToolError("vacuity: %d vector-class capture cases, expected 24" % nvec)
     chk.cov["vector_class_cases"] = nvec
-    if rep["distinct_cases"] - narr - nvec < 470:
-        raise ToolError("vacuity: %d (class, expression / getter / driver) cases" % (rep["distinct_cases"] - narr - nvec))
+    if rep["distinct_cases"] - narr - nvec - nprogcases - nprogops < 470:
+        raise ToolError("vacuity: %d (class, expression / getter / driver) cases" % (rep["distinct_cases"] - narr - nvec - nprogcases - nprogops))
     for v in rep["violations"]:
         chk.violation("python binding: %s" % json.dumps(v, ensure_ascii=False)[:600], {"kind": "python-case", **v})
     chk.assumptions.append("only the eight scalar / nested classes are registered in the module; the fixed-size and dynamic vector "
